@@ -66,9 +66,10 @@ Proof. exact ready_read_is_dispatched. Qed.
 Print Assumptions C01_ready_read_is_dispatched.
 
 (* Cancel completes the in-flight read exactly once, with the cancellation error and the progress made so far, and
-   removes its interest (then handles the write side). *)
+   removes its interest (then handles the write side).  ctl_ok: the descriptor is one epoll knows; if it was closed
+   underneath the object the callback still runs exactly once, but with the poller's error instead. *)
 Theorem C01_cancel_completes_read_once : forall s i o p,
-  lookup i (l_objs s) = Some o -> o_evR o = true -> o_rd o = Some p ->
+  lookup i (l_objs s) = Some o -> o_evR o = true -> o_rd o = Some p -> ctl_ok o = true ->
   snd (do_action s (ACancel i)) = [IInvoke (op_cb p) xCancelled (op_sofar p) false; ICancelWrites i] /\
   exists o', lookup i (l_objs (fst (do_action s (ACancel i)))) = Some o' /\ o_evR o' = false.
 Proof. exact cancel_completes_read. Qed.
